@@ -290,10 +290,11 @@ def execute(spec, tier, seed, only_case=None):
                 cfg = b["config"]
                 srcs = [s if os.path.isabs(s) else os.path.join(VERIF, "harness", s) for s in b["harness"]]
                 srcs = [s.replace("@BUILD@", bdir) for s in srcs]
+                lk = (cfg, tuple(b.get("lib_cflags", ())))
                 binp, lo = B.build(cfg, srcs, b["name"], bdir, extra_cflags=b.get("cflags", ()),
                                    extra_ldflags=b.get("ldflags", ()), wraps=b.get("wraps", ()),
-                                   lib_objs=libobjs.get(cfg))
-                libobjs[cfg] = lo
+                                   lib_objs=libobjs.get(lk), lib_cflags=b.get("lib_cflags", ()))
+                libobjs[lk] = lo
                 bins[(b["name"], cfg)] = binp
         except B.BuildError as e:
             log("HARNESS-FAILURE: build failed\n%s" % e)
